@@ -29,11 +29,18 @@
     every slice stays separate and the groups are exactly the cells (wide) / (cell, field) pairs
     (long); sample order is restored from the scenario column whatever the row order; a dict listed
     in enumeration order is rebuilt exactly; Matrix index inverse (see the MatrixIx theorems).
-    MISSING for (W)/(L): the writer lemma (to_*_rows produces one such block per cell) and the
-    per-block cell reconstruction; both are checked by evaluation on every case. *)
+    The Metadata of a row is rebuilt as fl_meta m (NaN -> default), the values of a scalar cell are
+    rebuilt as floats.  (M) is proved for cumulative scalar triangles whose cells carry every field;
+    the reader half of (A) is proved.
+    MISSING for (W)/(L): the writer lemma (to_*_rows produces one such block per cell, with these
+    columns) and the assembly of the per-block lemmas into the end-to-end equation; for samples the
+    per-block value reconstruction.  MISSING for (A): the writer half (to_array).  MISSING for (M):
+    incremental triangles, cells with a subset of the fields.  All of these are checked by evaluation
+    of the full statements inside Coq on every correspondence case. *)
 From Coq Require Import ZArith List Bool Sorting.Permutation Sorting.Sorted.
-From Bermuda Require Import Model.Base Model.Frame Model.MatrixIx
-     Proofs.FrameLib Proofs.FrameKey Proofs.FrameGroups Proofs.FrameSort Proofs.FrameExample.
+From Bermuda Require Import Model.Base Lib.Calendar Model.Frame Model.MatrixIx
+     Proofs.FrameLib Proofs.FrameKey Proofs.FrameGroups Proofs.FrameSort Proofs.FrameMeta Proofs.FrameValues
+     Proofs.MatrixIxP Proofs.FrameExample.
 Import ListNotations.
 Local Open Scope Z_scope.
 
@@ -137,3 +144,98 @@ Theorem C14_pre_F12_steps_refuted :
   /\ matrix_round_trip ref_mspec ex_holey [f_paid] = Ok (floatify ex_holey).
 Proof. split; [vm_compute; reflexivity|]. split; vm_compute; [discriminate | reflexivity]. Qed.
 Print Assumptions C14_pre_F12_steps_refuted.
+
+(* ---------------------------------------------------------------------------------- *)
+(** NaN -> default and Metadata reconstruction: a row carrying the flat dict of m is read back as fl_meta m *)
+Theorem C14_metadata_rebuilt_partial (m : meta) (r : row) (dn ln : list str) :
+  meta_ok m = true -> NoDup dn -> NoDup ln ->
+  ordered_in dn (keys (details m)) = true -> ordered_in ln (keys (loss_details m)) = true ->
+  (forall n, In n meta_col_names -> get n r = get n (attr_dict m)) ->
+  (forall n, In n dn -> get n r = get n (tdict (details m))) ->
+  (forall n, In n ln -> get n r = get n (tdict (loss_details m))) ->
+  meta_of_row dn ln r = fl_meta m.
+Proof. exact (meta_rebuilt m r dn ln). Qed.
+Print Assumptions C14_metadata_rebuilt_partial.
+
+(** the values of a scalar cell are rebuilt as floats from its single row *)
+Theorem C14_scalar_values_rebuilt_partial (fn : list str) (vals : list (str * value)) (r : row) :
+  NoDup fn -> ordered_in fn (keys vals) = true ->
+  forallb (fun kv => is_scalar (snd kv)) vals = true ->
+  (forall f, In f fn -> get f r = field_entry (assoc f vals) 0) ->
+  values_of [r] fn = Ok (map (fun kv => (fst kv, fl_value (snd kv))) vals).
+Proof. exact (scalar_values_rebuilt fn vals r). Qed.
+Print Assumptions C14_scalar_values_rebuilt_partial.
+
+(** MatrixIndex: resolve (unresolve i) = i on the development axis, for any common step *)
+Theorem C14_matrix_resolve_unresolve : forall k ix n, 0 < step_of k ix -> 0 <= n ->
+  resolve_dev k ix (unresolve_dev k ix n) = Ok n.
+Proof. exact resolve_unresolve_dev. Qed.
+Print Assumptions C14_matrix_resolve_unresolve.
+
+(** ... and unresolve (resolve lag) = lag for lags on the grid of the step *)
+Theorem C14_matrix_unresolve_resolve : forall k ix lag, 0 < step_of k ix -> dev_origin ix <= lag ->
+  (step_of k ix | lag - dev_origin ix) ->
+  exists n, resolve_dev k ix lag = Ok n /\ 0 <= n /\ unresolve_dev k ix n = lag.
+Proof. exact unresolve_resolve_dev. Qed.
+Print Assumptions C14_matrix_unresolve_resolve.
+
+(** experience axis *)
+Theorem C14_matrix_resolve_unresolve_exp : forall ix n, 0 < exp_res ix -> 0 <= n ->
+  0 <= exp_origin ix + n * exp_res ix <= 1571 ->
+  resolve_exp ix (unresolve_exp_start ix n) = Ok n.
+Proof. exact resolve_unresolve_exp. Qed.
+Print Assumptions C14_matrix_resolve_unresolve_exp.
+
+(** nested resolutions put every lag difference on the grid of min(dev, exp) *)
+Theorem C14_matrix_nested_step_divides : forall ix a b, 0 < dev_res ix -> 0 < exp_res ix ->
+  ((dev_res ix | exp_res ix) \/ (exp_res ix | dev_res ix)) ->
+  (dev_res ix | a) -> (exp_res ix | b) -> (step_of SMin ix | a - b).
+Proof. exact nested_step_divides. Qed.
+Print Assumptions C14_matrix_nested_step_divides.
+
+(** a cell on the grid: its indices turn back into its three dates (month ids 0..1571 = 1970-2100) *)
+Theorem C14_matrix_coords_roundtrip : forall k ix s lag,
+  0 < exp_res ix -> 0 < step_of k ix ->
+  (exp_res ix | s - exp_origin ix) -> exp_origin ix <= s ->
+  dev_origin ix <= lag -> (step_of k ix | lag - dev_origin ix) ->
+  0 <= s -> 0 <= s + exp_res ix - 1 + lag -> s + exp_res ix - 1 <= 1571 ->
+  s + exp_res ix - 1 + lag <= 1571 ->
+  exists p d,
+    resolve_exp ix (month_start s) = Ok p /\ resolve_dev k ix lag = Ok d /\
+    cell_coords_from_index k ix p d
+    = (month_start s, month_end (s + exp_res ix - 1), month_end (s + exp_res ix - 1 + lag)).
+Proof. exact coords_roundtrip. Qed.
+Print Assumptions C14_matrix_coords_roundtrip.
+
+(** F12: different steps in index and inverse are refuted *)
+Theorem C14_matrix_mixed_steps_refuted : exists ix lag,
+  0 < dev_res ix /\ 0 < exp_res ix /\ dev_origin ix <= lag /\
+  (step_of SMin ix | lag - dev_origin ix) /\
+  match resolve_dev SMin ix lag with
+  | Ok n => unresolve_dev SDev ix n <> lag
+  | Err _ => False
+  end.
+Proof. exact mixed_steps_refuted. Qed.
+Print Assumptions C14_matrix_mixed_steps_refuted.
+
+(** (M) for cumulative scalar triangles in which every cell carries every field (holey or complete, any number of slices): matrix_to_triangle (triangle_to_matrix t) is a permutation of floatify t.  Missing: incremental triangles, cells with a subset of the fields *)
+Theorem C14_matrix_round_trip_partial : forall msp t fields ix,
+  ms_resolve_step msp = SMin -> ms_inverse_step msp = SMin ->
+  semi_regular t = true ->
+  index_from_triangle t fields = Ok ix ->
+  ((dev_res ix | exp_res ix) \/ (exp_res ix | dev_res ix)) ->
+  NoDup fields ->
+  (forall c, In c t -> grid_cell (exp_res ix) fields c) ->
+  NoDup t ->
+  (forall c c', In c t -> In c' t -> cmeta c = cmeta c' -> ps c = ps c' -> ev c = ev c' -> c = c') ->
+  exists out, matrix_round_trip msp t fields = Ok out /\ Permutation out (floatify t).
+Proof. exact matrix_round_trip_nested. Qed.
+Print Assumptions C14_matrix_round_trip_partial.
+
+(** (A), reader half: from_array rebuilds, row by row, the cells of the frame (period end = start + r months - 1 day, evaluation = period end + lag months).  Missing: the writer half (to_array groups the cells into these rows) *)
+Theorem C14_array_frame_reader_partial : forall f m res lags (rows : list (Z * list (option Z))),
+  Forall (fun r => arow_ok res lags (fst r)) rows ->
+  from_array (mkAF lags (map (fun r => (month_start (fst r), snd r)) rows)) f res m
+  = aframe_cells f m res lags rows.
+Proof. exact from_array_rows. Qed.
+Print Assumptions C14_array_frame_reader_partial.
